@@ -118,14 +118,14 @@ Theorem C05_no_switch_example :
 Proof. exact no_switch_example. Qed.
 Print Assumptions C05_no_switch_example.
 
-(* Documented semantics, stage 2: -F / -N / -D / -t together with the trigger actions depth=N and time=T (alone
-   or combined with filter / notrace on the same function), any trigger table with well-formed values, any
+(* Documented semantics, stage 2: -F / -N / -C / -D / -t together with the trigger actions depth=N, time=T and trace
+   (alone or combined with filter / notrace / caller on the same function), any trigger table with well-formed values, any
    threshold, both instrumentation shapes (the -pg / fentry / PLT shape under [pg_guard], outside which the known
    leak pg-reject-leak applies): the recorded stream equals the tree-recursive specification [sel2]. *)
-Theorem C05_matches_documented_filters_depth_time_triggers : forall tg fm gd thr ms sh,
+Theorem C05_matches_documented_filters_depth_time_triggers : forall tg fm hc gd thr ms sh,
   0 < gd -> wf_tg tg -> sh = CYG \/ pg_guard tg -> forall f, all_timed f -> heights f <= ms ->
-  out (fst (exec (fcfg2 tg fm gd thr ms sh) (flat_forest f) (init, []))) =
-  flat_map (sel2 tg (x02 fm gd thr) 0) f.
+  out (fst (exec (fcfg2 tg fm hc gd thr ms sh) (flat_forest f) (init, []))) =
+  flat_map (sel2 tg hc (x02 fm gd thr) 0) f.
 Proof. exact run_forest_sel2. Qed.
 Print Assumptions C05_matches_documented_filters_depth_time_triggers.
 
